@@ -430,6 +430,50 @@ def const_value(t, pv):
     raise ValueError(t)
 
 
+def value_text(t, x):
+    """book layout, concrete: padded bits (python int of width(t) bits) -> Simfony expression text of the value"""
+    k = t[0]
+    w = width(t)
+    if k == "u":
+        return str(x)
+    if k == "bool":
+        return "true" if x else "false"
+    if k == "tuple" or k == "array":
+        tys = t[1] if k == "tuple" else [t[1]] * t[2]
+        out, pos = [], w
+        for e in tys:
+            we = width(e)
+            out.append(value_text(e, (x >> (pos - we)) & ((1 << we) - 1)))
+            pos -= we
+        if k == "array":
+            return "[" + ", ".join(out) + "]"
+        return "(" + ", ".join(out) + (",)" if len(out) == 1 else ")")
+    if k == "option":
+        we = width(t[1])
+        if (x >> (w - 1)) & 1:
+            return "Some(" + value_text(t[1], x & ((1 << we) - 1)) + ")"
+        return "None"
+    if k == "either":
+        if (x >> (w - 1)) & 1:
+            we = width(t[2])
+            return "Right(" + value_text(t[2], x & ((1 << we) - 1)) + ")"
+        we = width(t[1])
+        return "Left(" + value_text(t[1], x & ((1 << we) - 1)) + ")"
+    if k == "list":
+        we = width(t[1])
+        pos = w
+        out = []
+        for s in list_block_sizes(t[2]):
+            present = (x >> (pos - 1)) & 1
+            pos -= 1
+            for _ in range(s):
+                if present:
+                    out.append(value_text(t[1], (x >> (pos - we)) & ((1 << we) - 1)))
+                pos -= we
+        return "list![" + ", ".join(out) + "]"
+    raise ValueError(t)
+
+
 def list_value(t, elems):
     """a list of known length: elements fill the present blocks in order, largest block first"""
     n = len(elems)
@@ -944,27 +988,34 @@ class Spec:
             if "jet_swap_args" in self.mut and len(vals) >= 2 and e.args[0].ty == e.args[1].ty:
                 vals[0], vals[1] = vals[1], vals[0]  # canary: arguments reach the jet in the wrong order
             bits = T.cat([to_bits(a.ty, v) for a, v in zip(e.args, vals)])
+            self.calls.append(("Jet", e, None, bits))
             v, f = self.jet(e.jet, bits, e.ty)
             return v, T.or_(fails, f)
         if isinstance(e, Unwrap):
             v, f = self.eval(e.e, env)
+            self.calls.append(("Unwrap", e, e.e.ty, to_bits(e.e.ty, v)))
             return assume_value(v.val, e.ty, v.tag, 1), T.or_(f, T.not_(v.tag))
         if isinstance(e, UnwrapLeft):
             v, f = self.eval(e.e, env)
+            self.calls.append(("UnwrapLeft", e, e.e.ty, to_bits(e.e.ty, v)))
             return assume_value(v.l, e.ty, v.tag, 0), T.or_(f, v.tag)
         if isinstance(e, UnwrapRight):
             v, f = self.eval(e.e, env)
+            self.calls.append(("UnwrapRight", e, e.e.ty, to_bits(e.e.ty, v)))
             return assume_value(v.r, e.ty, v.tag, 1), T.or_(f, T.not_(v.tag))
         if isinstance(e, IsNone):
             v, f = self.eval(e.e, env)
             return T.not_(v.tag), f
         if isinstance(e, Assert):
             v, f = self.eval(e.e, env)
+            self.calls.append(("Assert", e, BOOL, v))
             return (), T.or_(f, T.not_(v))
         if isinstance(e, Panic):
             return default(e.ty), T.true()
         if isinstance(e, Dbg):
-            return self.eval(e.e, env)
+            v, f = self.eval(e.e, env)
+            self.calls.append(("Debug", e, e.e.ty, to_bits(e.e.ty, v)))
+            return v, f
         if isinstance(e, Cast):
             v, f = self.eval(e.e, env)
             if width(e.e.ty) != width(e.ty):
